@@ -204,6 +204,7 @@ def c13_violations(lines, sessions=None):
         in_cp = False
         phase = 0          # 1 exits, 2 transitions, 3 entries
         stable_pending = False   # a macrostep is in progress (something was processed since the last stb)
+        reached_final = False    # a top-level final state was entered: the session ends inside that macrostep
         n_stb_since_ext = 0
         saw_anything = False
         for r in recs:
@@ -226,6 +227,9 @@ def c13_violations(lines, sessions=None):
                 elif kd == "bcp":
                     if in_ms or stack:
                         bad("C13.nesting", "beforeCompletion inside an open bracket")
+                    if stable_pending and not reached_final:
+                        # a cancelled session completes; the macrostep it was in is finished and announced first
+                        bad("C13.stable-once", "completion started although the macrostep before it was never closed by a stable-configuration notice")
                     in_cp = True
                 elif kd == "bxs":
                     if not in_ms:
@@ -249,6 +253,8 @@ def c13_violations(lines, sessions=None):
                     if not in_ms:
                         bad("C13.outside-bracket", "beforeEnteringState %s outside a micro-step bracket" % r[5])
                     phase = 3
+                    if len(r) > 6 and "//final[" in str(r[6]):
+                        reached_final = True      # (conservatively: any <final>; only a top-level one ends the session)
                     if stack:
                         bad("C13.nesting", "beforeEnteringState %s inside open %s" % (r[5], stack[-1][0]))
                 elif kd == "bxc":
@@ -314,6 +320,7 @@ def c13_violations(lines, sessions=None):
                 if in_ms or stack or in_cp:
                     bad("C13.nesting", "onStableConfiguration inside an open bracket")
                 n_stb_since_ext += 1
+                reached_final = False
                 if not stable_pending:
                     bad("C13.stable-once", "second stable-configuration notice without anything processed in between")
                 stable_pending = False
